@@ -405,17 +405,21 @@ pub fn run(cfg: &Cfg) {
         hello_case(&mut out, &mut rng);
     }
     // reply constructors
-    let senders: Vec<Option<String>> = vec![None, Some(":1.5".into()), Some("org.example.Caller".into()), Some(":1.4294967295".into())];
+    let senders: Vec<Option<String>> = vec![None, Some(":1.5".into()), Some("org.example.Caller".into()), Some(":1.4294967295".into()), Some("org.freedesktop.DBus".into())];
     // values whose four bytes are pairwise different show a byte mix-up in either byte order
     let serials: Vec<Option<u32>> = vec![None, Some(1), Some(2), Some(0x7fffffff), Some(u32::MAX), Some(256), Some(0x1234), Some(0x01020304), Some(70000), Some(0x80a1b2c3)];
+    let mut variant = 0u32;
     for sender in &senders {
         for serial in &serials {
             for kind in ["response", "error", "unknown_method", "invalid_args"] {
+                // the rest of the received header must not matter: with / without DESTINATION, with a stray REPLY_SERIAL
+                variant += 1;
                 let call = DynamicHeader {
                     interface: Some("a.b".into()),
                     member: Some("M".into()),
                     object: Some("/o".into()),
-                    destination: Some("org.me".into()),
+                    destination: if variant % 3 == 0 { None } else { Some("org.me".into()) },
+                    response_serial: if variant % 4 == 1 { NonZeroU32::new(0x0a0b0c0d) } else { None },
                     serial: serial.and_then(NonZeroU32::new),
                     sender: sender.clone(),
                     ..Default::default()
